@@ -52,6 +52,17 @@ func allGroups(r *sink) []group {
 		group{"labels_values_series", func(r *sink, g *gstat) { runLabelCases(r, g, labelCases(r.Thorough())) }},
 		group{"tempo", func(r *sink, g *gstat) { runTempoCases(r, g, tempoCases(r.Thorough())) }},
 		group{"prom_write_response", func(r *sink, g *gstat) { runPromCases(r, g, promCases()) }},
+		group{"pyroscope_select_series", func(r *sink, g *gstat) { runPyroCases(r, g, pyroCases()) }},
+		group{"qr_grid_range_matrix", func(r *sink, g *gstat) {
+			var cases []*QRCase
+			gridCases("range_matrix", func(c *QRCase) { cases = append(cases, c) })
+			runQRCases(r, g, cases)
+		}},
+		group{"qr_grid_instant_vector", func(r *sink, g *gstat) {
+			var cases []*QRCase
+			gridCases("instant_vector", func(c *QRCase) { cases = append(cases, c) })
+			runQRCases(r, g, cases)
+		}},
 	)
 	// cheap groups first: a deadline then cuts the big structure enumerations, not whole endpoints
 	sort.SliceStable(gs, func(i, j int) bool { return rank(gs[i].name) < rank(gs[j].name) })
@@ -173,6 +184,13 @@ func replayCase(r *sink, rp Replay) bool {
 			ev.Fatal("replay: %v", err)
 		}
 		runTempoCases(r, &gstat{}, []*TempoCase{&c})
+		return true
+	case "pyro":
+		var c PyroCase
+		if err := json.Unmarshal(rp.Case, &c); err != nil {
+			ev.Fatal("replay: %v", err)
+		}
+		runPyroCases(r, &gstat{}, []*PyroCase{&c})
 		return true
 	case "prom":
 		var c PromCase
